@@ -22,6 +22,7 @@ def run(ctx: Ctx) -> None:
     tableau.rule_fresh_storage(ctx)
     from ..rules import memo as _memo
     _memo.rule_memo_sound(ctx, ['graphiq/backends/stabilizer/functions/clifford.py', 'graphiq/backends/stabilizer/functions/transformation.py', 'graphiq/backends/stabilizer/state.py', 'graphiq/backends/stabilizer/clifford_tableau.py', 'graphiq/backends/stabilizer/tableau.py'])
+    _memo.rule_falsy_zero(ctx, ['graphiq/backends/stabilizer/functions/clifford.py', 'graphiq/backends/stabilizer/functions/transformation.py', 'graphiq/backends/stabilizer/state.py', 'graphiq/backends/stabilizer/clifford_tableau.py', 'graphiq/backends/stabilizer/tableau.py'])
     tableau.rule_own_tableau(ctx)
     tableau.rule_rowcol(ctx, [CLIFF, gatesum.TRANSFORM, STABF])
     tableau.rule_bounds(ctx, [CLIFF, STABF])
@@ -58,6 +59,7 @@ def rule_wrappers(ctx: Ctx) -> None:
 
 
 KNOCKOUTS = [
+    Knockout("insert-position-falsy-zero", CLIFF, sub_once("    n_qubits = tableau.n_qubits\n    assert new_position <= n_qubits\n", "    n_qubits = tableau.n_qubits\n    new_position = new_position or n_qubits\n    assert new_position <= n_qubits\n"), "falsy.zero", "truthiness of numeric parameter"),
     Knockout("stab-phase-asarray", tableau.TABLEAU, sub_once("            self._phase = np.copy(phase).astype(int)", "            self._phase = np.asarray(phase, dtype=int)"), "own.fresh-storage", "aliases its argument"),
     Knockout("clifford-phase-iphase-shared", tableau.CTABLEAU, sub_once("        self._iphase = np.zeros(2 * self.n_qubits).astype(int)\n", "        self._iphase = self._phase\n"), "own.fresh-storage", "aliases"),
     Knockout("missing-project-api", gatesum.SSTATE, sub_once("        tableau, outcome, _ = sfc.z_measurement_gate(\n            tableau, qubit_position, measurement_determinism\n        )\n        self._tableau = transform.hadamard_gate(tableau, qubit_position)", "        tableau, outcome, _ = sfc.x_basis_measurement_gate(\n            tableau, qubit_position, measurement_determinism\n        )\n        self._tableau = transform.hadamard_gate(tableau, qubit_position)"), "api.project", "has no x_basis_measurement_gate"),
